@@ -428,3 +428,26 @@ func paramsOfArg(a ssa.Value) map[*ssa.Parameter]bool {
 	})
 	return out
 }
+
+
+// findCallIn returns the call named method (interface method or function name) in fn or, failing that, in a helper of
+// the same package fn calls (two levels), together with the function that holds it: rules about "what happens around
+// the exchange with the target" look at that function, wherever a refactoring put the exchange.
+func findCallIn(fn *ssa.Function, name string) (*ssa.Function, *ssa.Call) {
+	for _, g := range FindFuncs(fn, 2, func(*ssa.Function) bool { return true }) {
+		var call *ssa.Call
+		EachInstr(g, func(in ssa.Instruction) {
+			if cl, ok := in.(*ssa.Call); ok {
+				if f := CalleeObj(&cl.Call); f != nil && f.Name() == name {
+					if cl.Call.IsInvoke() || name != "Do" {
+						call = cl
+					}
+				}
+			}
+		})
+		if call != nil {
+			return g, call
+		}
+	}
+	return nil, nil
+}
